@@ -972,7 +972,12 @@ def iterate_nodes(case, rp):
             n += 1
             c = mk_continuous(rp, [{'index': i} for i in range(nn)])
             c._node_offset = off
-            got = [x['index'] for x in c._iterate_nodes()]
+            try:
+                got = [x['index'] for x in c._iterate_nodes()]
+            except Exception as e:
+                return dict(confirmed=True, detail='iterating %d node(s) from offset %d raised %r' % (nn, off, e),
+                            input=dict(n_nodes=nn, node_offset=off),
+                            found_by='small-scope native enumeration (%d cases)' % n)
             want = [(off + i) % nn for i in range(nn)]
             if got != want:
                 return dict(confirmed=True, detail='yielded %s, expected every node '
@@ -1671,3 +1676,57 @@ def master_result_cb(case, rp):
                     return dict(confirmed=True, detail='; '.join(probs), input=dict(exit_code=code, target_state=preset, callback_raises=raises),
                                 found_by='bounded native enumeration (%d cases)' % n)
     return dict(confirmed=False, detail='%d result cases hold natively' % n)
+
+
+@builder('utils/component.py:BaseComponent.work_cb#dispatch')
+def work_cb_dispatch(case, rp):
+    """the real work_cb with a fake input queue and worker routines that raise"""
+    import threading as mt
+    from radical.pilot.utils.component import BaseComponent
+    n = 0
+    for raises in (False, True):
+        for states in (['S1'], ['S1', 'S2']):
+            n += 1
+            c = object.__new__(BaseComponent)
+            c._log, c._prof = Stub(), Stub()
+            c._cancel_list, c._cancel_lock = [], mt.RLock()
+            things = [{'uid': 't%d' % i, 'type': 'task', 'state': states[i % len(states)]} for i in range(4)]
+
+            class Q:
+                def __init__(s): s.sent = False
+                def get_nowait(s, qname=None, timeout=None):
+                    if s.sent: return []
+                    s.sent = True
+                    return list(things)
+            seen = []
+            def good(ts): seen.append(('ok', [t['uid'] for t in ts]))
+            def bad(ts):
+                seen.append(('bad', [t['uid'] for t in ts]))
+                raise RuntimeError('worker failed')
+            c._inputs = {'in': {'qname': 'q', 'queue': Q(), 'states': list(states)}}
+            c._workers = {s_: (bad if (raises and s_ == 'S1') else good) for s_ in states}
+            adv = []
+            c.advance = lambda ts, state=None, publish=True, push=False, **kw: adv.append(([t['uid'] for t in ts], state, publish, push))
+            try:
+                r = c.work_cb()
+            except Exception as e:
+                return dict(confirmed=True, detail='a failing work routine took work_cb down: %r' % e, input=dict(states=states),
+                            found_by='directed native scenario')
+            probs = []
+            if r is not True: probs.append('work_cb returned %r (the callback would be unregistered)' % r)
+            if raises:
+                s1 = [t for t in things if t['state'] == 'S1']
+                if [a for a in adv if a[1] == 'FAILED'] != [([t['uid'] for t in s1], 'FAILED', True, False)]:
+                    probs.append('the failed bulk was advanced as %s (expected once, FAILED, published, not pushed)' % adv)
+                for t in s1:
+                    if not t.get('exception') or not t.get('exception_detail'):
+                        probs.append('%s of the failed bulk carries no exception record' % t['uid'])
+                for t in things:
+                    if t['state'] == 'S2' and t.get('exception'):
+                        probs.append('%s of another bulk was marked failed' % t['uid'])
+            elif adv:
+                probs.append('things were failed although no worker raised: %s' % adv)
+            if probs:
+                return dict(confirmed=True, detail='; '.join(probs[:3]), input=dict(states=states, worker_raises=raises),
+                            found_by='directed native scenario (%d tried)' % n)
+    return dict(confirmed=False, detail='%d work_cb scenarios hold natively' % n)
